@@ -40,6 +40,16 @@ def _setup_signal_handling_if_needed():
         signal.signal(signal.SIGTERM, keyboard_interrupt_on_sigterm)
 
 
+def _echo(stream, text):
+    """Show the output of the process while it runs (--debug). The stream may not
+       be able to encode everything a benchmark prints."""
+    try:
+        stream.write(text)
+    except UnicodeEncodeError:
+        encoding = getattr(stream, "encoding", None) or "ascii"
+        stream.write(text.encode(encoding, errors="backslashreplace").decode(encoding))
+
+
 class _SubprocessThread(Thread):
 
     def __init__(self, executable_name, args, env,
@@ -108,11 +118,11 @@ class _SubprocessThread(Thread):
                 for file_no in ret[0]:
                     if file_no == proc.stdout.fileno():
                         read = output_as_str(proc.stdout.readline())
-                        sys.stdout.write(read)
+                        _echo(sys.stdout, read)
                         self.stdout_result += read
                     if self._stderr == PIPE and file_no == proc.stderr.fileno():
                         read = output_as_str(proc.stderr.readline())
-                        sys.stderr.write(read)
+                        _echo(sys.stderr, read)
                         self.stderr_result += read
 
                 if proc.poll() is not None:
